@@ -352,10 +352,10 @@ const BOUNDARY_SMALL: &[usize] = &[250, 251, 252, 253, 254, 255, 256, 257, 258, 
 const BOUNDARY_BIG: &[usize] = &[65530, 65531, 65532, 65533, 65534, 65535, 65536, 65537, 65538, 65539, 65540];
 const JSON_DEPTHS: &[usize] = &[2, 16, 100, 120, 125, 126, 127, 128, 129, 130, 200, 1000];
 const JSON_DEPTHS_DEEP: &[usize] = &[5_000, 50_000];
-/// HTML nesting: the stated bound of the property is 1000 open elements; deeper documents are
-/// generated only in the `deep` stream (see the known finding C17-html-deep-nesting).
-const HTML_DEPTHS: &[usize] = &[2, 10, 99, 100, 101, 255, 256, 500, 1000];
-const HTML_DEPTHS_DEEP: &[usize] = &[2000, 4000, 16000];
+/// HTML nesting: up to 2000 open elements in the main stream; the `deep` stream goes to what
+/// fits into a 65 KiB event and beyond.
+const HTML_DEPTHS: &[usize] = &[2, 10, 99, 100, 101, 255, 256, 500, 1000, 2000];
+const HTML_DEPTHS_DEEP: &[usize] = &[4000, 16000, 50000];
 const HOSTILE_NUMBERS: &[&str] = &[
     "1e999", "-1e999", "1e400", "1.5", "-0", "0.0", "1E2", "9007199254740991", "9007199254740992", "-9007199254740992",
     "9223372036854775807", "9223372036854775808", "18446744073709551615", "18446744073709551616",
